@@ -5,6 +5,7 @@ import (
 	"errors"
 	"fmt"
 	"math/rand"
+	"strings"
 	stdsync "sync"
 	"sync/atomic"
 	"time"
@@ -16,6 +17,7 @@ import (
 	jsync "github.com/NethermindEth/juno/sync"
 
 	"verifharness/internal/chainkit"
+	"verifharness/internal/refimpl"
 	"verifharness/internal/vh"
 )
 
@@ -29,25 +31,26 @@ type Decision struct {
 	BH    int      `json:"bh,omitempty"`   // resp wh: height of the block that is served instead
 	Ver   int      `json:"ver,omitempty"`  // resp ok/bad: answering version
 	SH    int      `json:"sh,omitempty"`   // resp/latest ok: height of the header served
-	Corr  string   `json:"corr,omitempty"` // resp bad: corruption kind
+	Corr  string   `json:"corr,omitempty"` // resp bad: corruption kind; resp fg: forgery kind (default diff-resealed)
 	Below uint64   `json:"below,omitempty"`
 	Len   int      `json:"len,omitempty"`
 	Reqs  []uint64 `json:"reqs,omitempty"`
-	NL    int      `json:"nl,omitempty"` // src: number of latest-header requests pending when it happened
+	NL    int      `json:"nl,omitempty"`    // src: number of latest-header requests pending when it happened
 	Burst bool     `json:"burst,omitempty"` // resp: do not wait for the node to settle first
 }
 
 type Scenario struct {
-	Name      string     `json:"name"`
-	Seed      int64      `json:"seed"`
-	Mode      string     `json:"mode"` // random | script
-	NewState  bool       `json:"new_state"`
-	InitLen   int        `json:"init_len"`
-	Plan      []SrcStep  `json:"plan"`
-	Decisions []Decision `json:"decisions,omitempty"`
-	MaxFaults int        `json:"max_faults"`
-	Restarts  int        `json:"restarts,omitempty"` // random mode: the node may be stopped and restarted this often
-	Steps     int        `json:"steps"`
+	Name      string            `json:"name"`
+	Seed      int64             `json:"seed"`
+	Mode      string            `json:"mode"` // random | script
+	NewState  bool              `json:"new_state"`
+	InitLen   int               `json:"init_len"`
+	Plan      []SrcStep         `json:"plan"`
+	Decisions []Decision        `json:"decisions,omitempty"`
+	MaxFaults int               `json:"max_faults"`
+	Restarts  int               `json:"restarts,omitempty"` // random mode: the node may be stopped and restarted this often
+	Shapes    map[string]string `json:"shapes,omitempty"`   // tag -> block shape, overriding the default (see shapeNames)
+	Steps     int               `json:"steps"`
 }
 
 type request struct {
@@ -109,10 +112,11 @@ type run struct {
 	note      string
 	restarts  int
 	broken    string
-	hung      string // the node neither calls the source nor returns (what was recorded before is still valid)
-	panicked  string // a panic of the real code, recovered on the goroutine that runs Synchronizer.Run
-	spins     int    // OnReorg calls that did not move the head (logged up to a cap)
-	extra     []finding // findings of the concurrent reader / the retained-value checks
+	hung      string       // the node neither calls the source nor returns (what was recorded before is still valid)
+	panicked  string       // a panic of the real code, recovered on the goroutine that runs Synchronizer.Run
+	spins     int          // OnReorg calls that did not move the head (logged up to a cap)
+	extra     []finding    // findings of the concurrent reader / the retained-value checks / the database re-verification
+	servedOK  map[int]bool // tags that were served honestly to the fetch pipeline (random mode: re-fetch adversary)
 	live      *liveNode
 	exited    atomic.Bool // Run returned although nobody stopped the node
 }
@@ -214,11 +218,24 @@ func (r *run) scanOutcomes() {
 
 func (r *run) onStored(n uint64) {
 	hdr, herr := r.node.BC.HeadsHeader()
+	problems := r.reverify(n)
 	r.mu.Lock()
 	defer r.mu.Unlock()
 	if r.closed {
 		r.lateWrite++
 		return
+	}
+	if len(problems) > 0 {
+		key := "sync:stored-block-fails-reverification:" + problems[0][:strings.IndexByte(problems[0], ':')]
+		dup := false
+		for _, f := range r.extra {
+			dup = dup || f.key == key
+		}
+		if !dup {
+			r.extra = append(r.extra, finding{key: key, step: len(r.events), what: fmt.Sprintf(
+				"block %d, read back from the database right after it was stored, does not pass an independent full verification: %s",
+				n, strings.Join(problems, "; "))})
+		}
 	}
 	r.scanOutcomes()
 	ev := vh.J{"ev": "Stored", "h": int(n), "rid": 0, "tag": -1, "bad": false, "hashok": false}
@@ -241,6 +258,64 @@ func (r *run) onStored(n uint64) {
 	}
 	r.lastWrite = r.log(ev)
 	r.shadow = append(r.shadow, ev["tag"].(int))
+}
+
+// reverify is the property's "every block the node stores passed full verification" evaluated on the
+// CONTENT of the database at store time, without any trust in the node's own verifier having run: the
+// block and state update are read back, the block hash is recomputed from the content (transaction
+// hashes, transaction / event / receipt / state-diff commitments), the content is compared with the
+// source's block of that hash, and the state tries in the database are re-hashed against the honest
+// block's state root (the root a twin node obtained by applying the honest diffs). It runs on the
+// goroutine that stored the block, before any other write can happen. Each problem starts with its
+// one-word class and a colon.
+func (r *run) reverify(n uint64) (problems []string) {
+	bc := r.node.BC
+	blk, e1 := bc.BlockByNumber(n)
+	su, e2 := bc.StateUpdateByNumber(n)
+	if e1 != nil || e2 != nil || blk == nil || su == nil || blk.Header == nil || blk.Hash == nil || su.StateDiff == nil {
+		return []string{fmt.Sprintf("unreadable: block: %v, state update: %v", e1, e2)}
+	}
+	if blk.Number != n {
+		problems = append(problems, fmt.Sprintf("number: the block stored at height %d says it is #%d", n, blk.Number))
+	}
+	if _, err := core.VerifyBlockHash(blk, chainkit.Network, su.StateDiff, core.DeprecatedTrieBackend); err != nil {
+		problems = append(problems, "hash: the stored content does not hash to the hash it is stored under: "+firstLine(err.Error()))
+	}
+	if su.BlockHash == nil || !su.BlockHash.Equal(blk.Hash) || su.NewRoot == nil || !su.NewRoot.Equal(blk.GlobalStateRoot) {
+		problems = append(problems, "update: the stored state update does not belong to the stored header (block hash / new root)")
+	}
+	want := blk.GlobalStateRoot
+	if tag, ok := r.w.byHash[*blk.Hash]; !ok {
+		problems = append(problems, "unknown: no version of the source has a block with hash "+blk.Hash.ShortString())
+	} else {
+		if got := digest(blk, su); got != r.w.digests[tag] {
+			problems = append(problems, fmt.Sprintf("content: differs from the source's block b%d of the same hash: got %s want %s", tag, got, r.w.digests[tag]))
+		}
+		want = r.w.blocks[tag].built.Block.GlobalStateRoot
+		if r.w.blocks[tag].height != n {
+			problems = append(problems, fmt.Sprintf("height: b%d is the source's block at height %d", tag, r.w.blocks[tag].height))
+		}
+	}
+	st, closer, err := bc.HeadState()
+	if err != nil {
+		return append(problems, "state: head state cannot be opened: "+err.Error())
+	}
+	defer func() { _ = closer() }()
+	ct, e1 := st.ContractTrie()
+	cl, e2 := st.ClassTrie()
+	if e1 != nil || e2 != nil {
+		return append(problems, fmt.Sprintf("state: tries cannot be opened: %v %v", e1, e2))
+	}
+	cr, e1 := ct.Hash()
+	clr, e2 := cl.Hash()
+	if e1 != nil || e2 != nil {
+		return append(problems, fmt.Sprintf("state: tries cannot be hashed: %v %v", e1, e2))
+	}
+	if root := refimpl.StateCommitment(&cr, &clr, blk.ProtocolVersion >= "0.14.0"); !root.Equal(want) {
+		problems = append(problems, fmt.Sprintf("state-root: the state in the database hashes to %s, the block's state root is %s",
+			root.ShortString(), want.ShortString()))
+	}
+	return problems
 }
 
 func (r *run) onReverted(n uint64) {
@@ -372,9 +447,14 @@ func (r *run) release(rq *request, d Decision) {
 				}
 			case "fg":
 				corr = forgery
+				if isForgery(d.Corr) {
+					corr = d.Corr
+				}
 			}
 			if d.R != "ok" {
 				r.faults++
+			} else if int(rq.h) >= len(r.shadow) {
+				r.servedOK[tag] = true
 			}
 			rp.cb = r.w.committed(tag, corr)
 			ev["r"], ev["ver"], ev["tag"], ev["bh"], ev["corr"], ev["kind"] = d.R, d.Ver, tag, int(bh), specCorr(corr), corr
@@ -468,13 +548,19 @@ func (r *run) randomAnswer(rq *request) Decision {
 			ver = vers[r.rng.Intn(len(vers))]
 		}
 		fetch := int(rq.h) >= len(r.shadow) // not a request of the revert loop
+		// answers are chosen PER REQUEST: a block that was already served honestly and is asked for again
+		// (a stream reset dropped it before it was stored) is a favourite target for altered content under
+		// the honest header
+		if budget && fetch && r.servedOK[r.w.chain(ver)[rq.h]] && r.rng.Intn(2) == 0 {
+			return Decision{R: "bad", Ver: ver, Corr: keepsHash[r.rng.Intn(len(keepsHash))]}
+		}
 		switch {
 		case budget && p < 0.07:
 			return Decision{R: "err"}
 		case budget && p < 0.15:
 			return Decision{R: "bad", Ver: ver, Corr: corruptions[r.rng.Intn(len(corruptions))]}
 		case budget && fetch && p < 0.19:
-			return Decision{R: "fg", Ver: ver}
+			return Decision{R: "fg", Ver: ver, Corr: forgeries[r.rng.Intn(len(forgeries))]}
 		case budget && fetch && p < 0.24 && len(r.w.chain(ver)) > 1:
 			bh := r.rng.Intn(len(r.w.chain(ver)) - 1)
 			if bh >= int(rq.h) {
